@@ -890,6 +890,21 @@ def _emit_fn(g, meta, tmpl, rel, src, m, ctx, name, kv, subs):
         if kind == 'rw':
             rule, rx, repl, mn = parse_rw(arg)
             text = apply_rw(text, rule, rx, repl, mn, rwlog)
+    if kv.get('dropfn'):
+        # R13c: a nested helper `fn NAME(..) -> .. { .. }` declared inside the body is cut out EXACTLY (brace-matched on the masked
+        # text); the unit supplies a contract for it. Nothing else of the body can be swallowed, whatever is inserted around it.
+        nm = kv['dropfn']
+        mm0 = mask(text)
+        hits = [mo for mo in re.finditer(r'\bfn\s+' + re.escape(nm) + r'\b', mm0)]
+        hits = [mo for mo in hits if mo.start() > mm0.index('{')]      # not the extracted function's own header
+        if len(hits) != 1:
+            raise ExtractError(f'{name}: nested fn `{nm}` found {len(hits)} times — anchor lost')
+        st = hits[0].start()
+        ob = mm0.index('{', st)
+        cb = match_brace(mm0, ob)
+        cut = text[st:cb + 1]
+        text = text[:st] + '\n' * cut.count('\n') + text[cb + 1:]
+        rwlog.append(dict(rule='R13', what=f'nested helper fn `{nm}` removed from the body (its contract is supplied by the unit): {len(cut)} characters, exactly its item', applied=1))
     if kv.get('enumerate') == '1':
         text = desugar_enumerate(text, rwlog)
     if kv.get('whilelet') == '1':
